@@ -61,10 +61,11 @@ func doJsDecode(input string, pos int) (string, bool) {
 				buf := make([]byte, 3)
 				j := 0
 
+				// the digits start after the backslash
 				for (i+1+j < inputLen) && (j < 3) {
-					buf[j] = input[i+j]
+					buf[j] = input[i+1+j]
 					j++
-					if !isodigit(input[i+j]) {
+					if i+1+j >= inputLen || !isodigit(input[i+1+j]) {
 						break
 					}
 				}
@@ -76,7 +77,8 @@ func doJsDecode(input string, pos int) (string, bool) {
 						j = 2
 						buf = buf[:j]
 					}
-					nn, _ := strconv.ParseInt(string(buf), 8, 8)
+					// at most \377: an unsigned byte
+					nn, _ := strconv.ParseUint(string(buf), 8, 8)
 					d[c] = byte(nn)
 					changed = true
 					c++
